@@ -54,7 +54,8 @@ _flat_stmt = st.one_of(
     st.sampled_from(['setup', 'log']).map(lambda f: '%s()' % f))
 _PH = ['_x_', '_y_', '_z_']
 _flat_pat = st.one_of(
-    st.tuples(st.sampled_from(_PH + ['a']), st.sampled_from(['0', '1', '___'])).map(lambda t: '%s = %s' % t),
+    st.tuples(st.sampled_from(_PH + ['a']), st.sampled_from(['0', '1', '___', '__e1__', '__e2__'])).map(lambda t: '%s = %s' % t),
+    st.sampled_from(['print(__e1__)', 'print(__e2__)', '_x_ = _y_ + __e1__']),
     st.tuples(st.sampled_from(_PH), st.sampled_from(_PH + ['b'])).map(lambda t: '%s = %s' % t),
     st.tuples(st.sampled_from(_PH), st.sampled_from(_PH), st.sampled_from(_PH + ['___'])).map(lambda t: '%s = %s + %s' % t),
     st.sampled_from(_PH + ['c', '___']).map(lambda v: 'print(%s)' % v),
@@ -64,7 +65,9 @@ _flat_pat = st.one_of(
 def flat_cases(tier):
     return st.fixed_dictionaries({'flat': st.just(True), 'code': st.lists(_flat_stmt, min_size=3, max_size=7).map(lambda l: '\n'.join(l) + '\n'),
                                   'pattern': st.lists(_flat_pat, min_size=2, max_size=4).map('\n'.join)},
-                                 optional={'continue': st.sampled_from(['_x_ + _y_', '_x_ + 1', '_y_ + _x_', '_z_ = _x_ + _y_', 'print(_x_)', '_x_ + ___', '_f_()'])})
+                                 optional={'continue': st.sampled_from(['_x_ + _y_', '_x_ + 1', '_y_ + _x_', '_z_ = _x_ + _y_', 'print(_x_)', '_x_ + ___', '_f_()',
+                                                                          # the same expression placeholder names as the first pattern may use
+                                                                          '_z_ = __e1__', 'print(__e1__)', '__e1__ + _x_', '_x_ + __e1__', '_y_ = __e2__', 'print(__e2__)'])})
 
 
 def _node_embeds(p, s, binding):
@@ -72,6 +75,12 @@ def _node_embeds(p, s, binding):
     if isinstance(p, ast.Name) and PLACE.match(p.id):
         if WILD.match(p.id):
             return [binding]
+        if EXP.match(p.id):
+            # a named expression placeholder stands for any expression; what a second use of the same name requires is not
+            # documented, so such patterns are left to the witness check
+            if 'expr:' + p.id in binding:
+                return None
+            return [dict(binding, **{'expr:' + p.id: True})]
         if not isinstance(s, ast.Name):
             return []
         if binding.get(p.id, s.id) != s.id:
@@ -93,8 +102,13 @@ def _node_embeds(p, s, binding):
         if type(p.op) is not type(s.op):
             return []
         out = _pairs_embed([(p.left, s.left), (p.right, s.right)], binding)
+        if out is None:
+            return None
         if isinstance(p.op, (ast.Add, ast.Mult)):
-            out += _pairs_embed([(p.left, s.right), (p.right, s.left)], binding)
+            swapped = _pairs_embed([(p.left, s.right), (p.right, s.left)], binding)
+            if swapped is None:
+                return None
+            out += swapped
         return out
     elif isinstance(p, ast.Call):
         if p.keywords or s.keywords:
@@ -402,7 +416,24 @@ def judge_flat(case):
         except BaseException as e:
             more = []
             viol.append(V('C10|continued|raises:%s' % type(e).__name__, 'find_matches(%r, use_previous=match of %r) raised %r' % (cont, pattern, e)))
+        inherited = {id(p) for p in base.mappings}
         for r in more[:10]:
+            # an expression placeholder of the continuation pattern names the subtree at ITS position, whatever an earlier match
+            # bound to a placeholder of the same name
+            for p, s_node in r.mappings.items():
+                ph = is_placeholder_node(p.astNode)
+                if id(p) in inherited or not ph or not EXP.match(ph) or WILD.match(ph):
+                    continue
+                own = [s2 for p2, s2 in r.mappings.items() if id(p2) not in inherited and is_placeholder_node(p2.astNode) == ph]
+                bound_now = r.exp_table.get(ph)
+                if not any(bound_now is s2 for s2 in own):
+                    classes.append('continued-with-same-expression-name')
+                    viol.append(V('C10|continued|expr-binding', 'continuing %r from a match of %r in %r: %s is bound to %s, not to the subtree standing at the placeholder (%s)'
+                                  % (cont, pattern, code, ph, ast.dump(bound_now.astNode)[:80] if bound_now is not None else None,
+                                     ', '.join(ast.dump(s2.astNode)[:80] for s2 in own))))
+                    break
+            if viol:
+                break
             for key, lst in list(r.symbol_table.items()) + list(r.func_table.items()):
                 try:
                     ids = {sym.id for sym in lst}
